@@ -192,6 +192,21 @@ def check_limits_and_range(ctx):
         nt += 1
         if o.ok or o.kind != 'CalculationError':
             ctx.violate(core.make_violation({'check': 'out-of-range-not-refused', 'where': name}, f'a pressure outside the kernel range ({name}) {o.brief()[:120]} instead of CalculationError', {'where': name}))
+    # points outside the kernel range which the limits EXCLUDE do not take part: the result is that of the isotherm without them
+    for name, extra_p in (('above the range', [hi * 1.0008, min(0.9999, hi * 1.002)]), ('below the range', [lo * 0.2, lo * 0.6])):
+        pp = numpy.sort(numpy.concatenate([p, extra_p]))
+        ll = numpy.interp(pp, p, load)
+        lim = (None, mids[4]) if name.startswith('above') else (mids[0], None)
+        U2 = dict(U)
+        with_out = core.call(pgc.psd_dft, pygaps.PointIsotherm(pressure=pp, loading=ll, material='c18', adsorbate='N2', temperature=77.355, **U2), p_limits=lim, bspline_order=0, timeout=900)
+        without = core.call(pgc.psd_dft, iso(load), p_limits=lim, bspline_order=0, timeout=900)
+        ev += 1
+        nt += 1
+        if without.ok and (not with_out.ok or not all(numpy.array_equal(numpy.asarray(with_out.value[k]), numpy.asarray(without.value[k]))
+                                                      for k in ('pore_distribution', 'pore_volume_cumulative', 'kernel_loading'))):
+            ctx.violate(core.make_violation({'check': 'outside-points-influence', 'where': name + ' of the kernel'},
+                                            f'psd_dft(p_limits={lim}) on an isotherm with points {name} of the kernel (excluded by the limits): '
+                                            f'{with_out.brief()[:160] if not with_out.ok else "result differs from that of the isotherm without these points"}', {'limits': lim}))
     # user kernels: a column subset written by the harness; two files with the same base name in different directories
     d1, d2 = os.path.join(core.scratch(), 'k1'), os.path.join(core.scratch(), 'k2')
     os.makedirs(d1, exist_ok=True)
@@ -214,6 +229,38 @@ def check_limits_and_range(ctx):
                 ctx.violate(core.make_violation({'check': 'user-kernel-widths'}, f'fit with the user kernel {f}: widths {list(o.value[0]) if o.ok else o.brief()} instead of the file\'s {want}', {'file': f}))
             elif float(((numpy.asarray(o.value[3]) - ld) ** 2).sum()) > 2e-4 * max(1.0, float((ld ** 2).sum())):
                 ctx.violate(core.make_violation({'check': 'user-kernel-fit'}, f'fit with the user kernel {f} does not reproduce an exact combination of its isotherms', {'file': f}))
+    # user kernels with very few pore widths x every spline order: a result is finite, non-negative, non-decreasing, and reproduces the data
+    for ncols, pick_ in ((1, [30]), (2, [20, 50]), (3, [10, 30, 50]), (4, [10, 25, 40, 60]), (5, [8, 20, 35, 50, 65])):
+        fk = os.path.join(d1, f'kernel_{ncols}_widths.csv')
+        cols_ = list(raw.columns[pick_])
+        raw[cols_].to_csv(fk)
+        Kf = kernel_matrix(p, fk)
+        wk = numpy.array([0.02, 0.01, 0.03, 0.015, 0.005][:ncols])
+        ld = (Kf * wk[:, None]).sum(axis=0)
+        for order in (0, 1, 2, 3):
+            psd_kernel._LOADED.clear()
+            o = core.call(psd_dft_kernel_fit, p, ld, fk, order, timeout=900)
+            ev += 1
+            if not o.ok:
+                if not core.is_pg(o.kind):
+                    ctx.violate(core.make_violation({'check': 'few-widths-kernel', 'what': 'raises', 'kind': o.kind},
+                                                    f'fit with a user kernel of {ncols} pore width(s), bspline_order={order}: {o.brief()[:200]}', {'widths': ncols, 'order': order}))
+                continue
+            nt += 1
+            wg, dist, cumv, fitl = [numpy.asarray(a, dtype=float) for a in o.value[:4]]
+            problems = []
+            if not (numpy.isfinite(wg).all() and numpy.isfinite(dist).all() and numpy.isfinite(cumv).all() and numpy.isfinite(fitl).all()):
+                problems.append('non-finite values')
+            elif (dist < -1e-9).any():
+                problems.append('negative distribution')
+            elif (numpy.diff(cumv) < -1e-9).any() or (numpy.diff(wg) < 0).any():      # (one control point: the smoothed curve is that point repeated)
+                problems.append('decreasing cumulative volume / widths')
+            if float(((fitl - ld) ** 2).sum()) > 2e-4 * max(1.0, float((ld ** 2).sum())) or not numpy.isfinite(fitl).all():
+                problems.append('the fitted isotherm does not reproduce an exact combination of the kernel isotherms')
+            if problems:
+                ctx.violate(core.make_violation({'check': 'few-widths-kernel', 'what': problems[0].split(' ')[0]},
+                                                f'fit with a user kernel of {ncols} pore width(s), bspline_order={order}: {"; ".join(problems)} (widths {wg[:5]}, distribution {dist[:5]})',
+                                                {'widths': ncols, 'order': order}))
     # a user kernel whose widths are written in angstrom: ascending numbers, but not ascending as text ('10' < '4')
     fc = os.path.join(d1, 'kernel_angstrom.csv')
     sel = list(raw.columns[[5, 20, 40, 55, 65, 75]])
